@@ -78,4 +78,76 @@ theorem dense_opEntry (tr : Tr) (m n lda : Nat) (a : Array K) (i j : Nat)
     simpa [hj'] using this
 
 end spec
+/-! ### the dot-product sweeps of `?trsv_` -/
+section trsv
+variable {K : Type} [Field K] [Conj K] [Inhabited K]
+
+omit [Conj K] [Inhabited K] in
+theorem loop_sub_eq_sum (n : Nat) (g : Nat → K) (a : K) :
+    loop n (fun t i => t - g i) a = a - ∑ i ∈ range n, g i := by
+  induction n with
+  | zero => simp [loop_zero]
+  | succ n ih => rw [loop_succ, ih, Finset.sum_range_succ]; ring
+
+/-- the sweep of the `uplo = U, trans = T/C` branch of `?trsv_` (dtrsv.c:230-262, ztrsv.c:262-345) -/
+def sweepUT (P : Nat → Nat) (c : Nat → Nat → K) (dg : Nat → K) (nounit : Bool) (x : Array K) (m : Nat) : Array K :=
+  loop m (fun (x : Array K) j =>
+    let temp := loop j (fun (t : K) i => t - c i j * x[P i]!) x[P j]!
+    let temp := if nounit then temp / dg j else temp
+    x.setIfInBounds (P j) temp) x
+
+omit [Conj K] in
+theorem sweepUT_spec (n : Nat) (P : Nat → Nat) (c : Nat → Nat → K) (dg : Nat → K) (nounit : Bool) (x : Array K)
+    (hinj : ∀ i j, i < n → j < n → P i = P j → i = j) (hb : ∀ i, i < n → P i < x.size) (m : Nat) (hm : m ≤ n) :
+    (sweepUT P c dg nounit x m).size = x.size ∧
+    (∀ j, j < m → (sweepUT P c dg nounit x m)[P j]! =
+      (fwdSub (fun j i => c i j) (fun j => if nounit then dg j else 1) (fun i => x[P i]!) m).getD j 0) ∧
+    (∀ j, m ≤ j → j < n → (sweepUT P c dg nounit x m)[P j]! = x[P j]!) ∧
+    (∀ p, (∀ i, i < n → P i ≠ p) → (sweepUT P c dg nounit x m)[p]! = x[p]!) := by
+  induction m with
+  | zero => simp [sweepUT, loop_zero]
+  | succ m ih =>
+    obtain ⟨h1, h2, h3, h4⟩ := ih (by omega)
+    have hstep : sweepUT P c dg nounit x (m + 1) =
+        (sweepUT P c dg nounit x m).setIfInBounds (P m)
+          (if nounit then (loop m (fun (t : K) i => t - c i m * (sweepUT P c dg nounit x m)[P i]!) (sweepUT P c dg nounit x m)[P m]!) / dg m
+           else loop m (fun (t : K) i => t - c i m * (sweepUT P c dg nounit x m)[P i]!) (sweepUT P c dg nounit x m)[P m]!) := by
+      simp [sweepUT, loop_succ]
+    have htemp : loop m (fun (t : K) i => t - c i m * (sweepUT P c dg nounit x m)[P i]!) (sweepUT P c dg nounit x m)[P m]! =
+        x[P m]! - ∑ i ∈ range m, c i m *
+          (fwdSub (fun j i => c i j) (fun j => if nounit then dg j else 1) (fun i => x[P i]!) m).getD i 0 := by
+      rw [h3 m (le_refl _) (by omega)]
+      rw [loop_congr m _ (fun (t : K) i => t - c i m *
+          (fwdSub (fun j i => c i j) (fun j => if nounit then dg j else 1) (fun i => x[P i]!) m).getD i 0)]
+      · exact loop_sub_eq_sum m _ _
+      · intro t i hi; rw [h2 i hi]
+    have hval : (if nounit then (loop m (fun (t : K) i => t - c i m * (sweepUT P c dg nounit x m)[P i]!) (sweepUT P c dg nounit x m)[P m]!) / dg m
+           else loop m (fun (t : K) i => t - c i m * (sweepUT P c dg nounit x m)[P i]!) (sweepUT P c dg nounit x m)[P m]!) =
+        (fwdSub (fun j i => c i j) (fun j => if nounit then dg j else 1) (fun i => x[P i]!) (m + 1)).getD m 0 := by
+      rw [fwdSub_last, htemp]
+      cases nounit <;> simp
+    rw [hstep, hval]
+    have hPm : P m < (sweepUT P c dg nounit x m).size := by rw [h1]; exact hb m (by omega)
+    refine ⟨by simp [h1], ?_, ?_, ?_⟩
+    · intro j hj
+      rw [getElem!_setIfInBounds]
+      by_cases hjm : j = m
+      · subst hjm; simp [hPm]
+      · have hne : ¬ (P m = P j ∧ P m < (sweepUT P c dg nounit x m).size) := by
+          intro hc; exact hjm (hinj j m (by omega) (by omega) hc.1.symm)
+        rw [if_neg hne, h2 j (by omega), fwdSub_prefix _ _ _ m j (by omega)]
+    · intro j hj hjn
+      rw [getElem!_setIfInBounds]
+      have hne : ¬ (P m = P j ∧ P m < (sweepUT P c dg nounit x m).size) := by
+        intro hc
+        have := hinj j m hjn (by omega) hc.1.symm
+        omega
+      rw [if_neg hne, h3 j (by omega) hjn]
+    · intro p hp
+      rw [getElem!_setIfInBounds]
+      have hne : ¬ (P m = p ∧ P m < (sweepUT P c dg nounit x m).size) := by
+        intro hc; exact hp m (by omega) hc.1
+      rw [if_neg hne, h4 p hp]
+
+end trsv
 end Slu.Cblas
